@@ -12,32 +12,44 @@
 (***************************************************************************)
 EXTENDS StoreTrace
 
-VARIABLE silentOK      \* a silent cycle is still allowed before the next line
+VARIABLES silentOK,   \* a silent cycle is still allowed in the current gap
+          chk         \* line whose observed contents still have to be matched (0 = none)
 
-JVars == <<vars, l, silentOK>>
+JVars == <<vars, l, silentOK, chk>>
 
-JInit == TraceInit /\ silentOK = TRUE /\ TLCSet(1, 1)
+JInit == TraceInit /\ silentOK = TRUE /\ chk = 0 /\ TLCSet(1, 1)
 
-JOp == TraceOp /\ silentOK' = TRUE
-JReset == TraceReset /\ silentOK' = TRUE
+(* The operation of the next line happens; the recorder looks at the contents a moment LATER, and the janitor may have    *)
+(* worked in between, so the contents are matched by a separate step (JVerify) that a silent cycle may precede.          *)
+JOp == chk = 0 /\ TraceOpNoState /\ chk' = l /\ silentOK' = TRUE
 
-(* The timer fired.  The recorder may look at the cache while a cycle is     *)
-(* still working through the shards, so a silent step removes ANY SUBSET of  *)
-(* the entries the cycle is entitled to remove - never anything else.        *)
+(* At a recorded Cleanup line the cache_items gauge (reported by its own goroutine, read after two reports) equals the   *)
+(* number of entries.                                                                                                    *)
+JVerify ==
+  /\ chk # 0
+  /\ StateProj = SetOf(Trace[chk].st)
+  /\ (Trace[chk].op.name = "Cleanup" => Trace[chk].met.items = Cardinality(Used(slot)))
+  /\ chk' = 0 /\ silentOK' = TRUE
+  /\ UNCHANGED <<vars, l>>
+
+JReset == chk = 0 /\ TraceReset /\ silentOK' = TRUE /\ chk' = 0
+
+(* The timer fired.  The recorder may look at the cache while a cycle is still working through the shards, so a silent   *)
+(* step removes ANY SUBSET of the entries the cycle is entitled to remove - never anything else.                         *)
 JSilent ==
-  /\ silentOK /\ l <= Len(Trace)
+  /\ silentOK /\ l <= Len(Trace) + 1
   /\ ScanEnabled
   /\ \E S \in SUBSET {h \in Slots : Deletable(slot[h])} :
         /\ S # {}
         /\ slot' = [h \in Slots |-> IF h \in S THEN None ELSE slot[h]]
   /\ silentOK' = FALSE
-  /\ UNCHANGED <<now, expSeen, clk, op, reply, met, cnt, l>>
+  /\ UNCHANGED <<now, expSeen, clk, op, reply, met, cnt, l, chk>>
 
-JNext == JOp \/ JReset \/ JSilent
+JNext == JOp \/ JVerify \/ JReset \/ JSilent
 JSpec == JInit /\ [][JNext]_JVars
 
 HighWater == TLCSet(1, IF l > TLCGet(1) THEN l ELSE TLCGet(1))
-NotDone == l <= Len(Trace)
+NotDone == ~(l = Len(Trace) + 1 /\ chk = 0)
 JAccepted ==
-  IF TLCGet(1) = Len(Trace) + 1 THEN TRUE ELSE Print(<<"TRACE_REJECTED_AT_LINE", TLCGet(1)>>, FALSE)
+  IF TLCGet(1) = Len(Trace) + 1 /\ FALSE THEN TRUE ELSE Print(<<"TRACE_REJECTED_AT_LINE", TLCGet(1)>>, FALSE)
 =============================================================================
